@@ -887,6 +887,41 @@ class SymStr(SymSeq):
     __slots__ = ()
     kind = "str"
 
+    def format(self, *args, **kwargs):
+        """str.format for a concrete template with symbolic arguments ({} / {0} / {name} fields, no specs)."""
+        import string
+        eng = core.cur()
+        if any(not isinstance(it, int) for it in self.items):
+            eng.unsupported("symbolic format template")
+        tmpl = "".join(map(chr, self.items))
+        out = []
+        auto = 0
+        for lit, field, spec, conv in string.Formatter().parse(tmpl):
+            out += [ord(c) for c in lit]
+            if field is None:
+                continue
+            if field == "":
+                v = args[auto]
+                auto += 1
+            elif field.isdigit():
+                v = args[int(field)]
+            else:
+                v = kwargs[field]
+            if isinstance(v, SymStr) and not spec and conv in (None, "s"):
+                out += v.items
+            elif isinstance(v, SymInt) and not spec and conv in (None, "s"):
+                out += seq_items(render_int(v, "str"))
+            elif isinstance(v, SymBase):
+                from .rt import opaque
+                out += [ord(c) for c in opaque("format")]
+            else:
+                if conv == "r":
+                    v = repr(v)
+                elif conv == "s":
+                    v = str(v)
+                out += [ord(c) for c in format(v, spec or "")]
+        return mkseq("str", out)
+
     def encode(self, encoding="utf-8", errors="strict"):
         enc = encoding.lower().replace("_", "-")
         if enc in ("ascii", "us-ascii", "utf-8", "utf8"):
